@@ -132,6 +132,17 @@ CHECKS = [
                 '(width 64, version 3 with -o, 1 without, stl included) are read from the produced headers.',
         'note': 'the API has no lzma-preset parameter, so version-3 bytes are compared with the API only at the default preset',
     },
+    {
+        'property_id': 'C02', 'level': 'exploration', 'design_ref': 'DESIGN.md 4 C02, 3.6',
+        'technique': 'runtime monitoring: denotational oracle (independent address/value model) over assembled images; wflip chains judged by executing the loaded image',
+        'text': 'Random primitive programs (the four f;j forms, labels, constants, wflip with/without return address, pad, '
+                'segment, reserve; every number rendered as an expression over literals, constants, labels and $) at all widths '
+                'and versions are assembled and read back; every statement word, every label and every reserved word must equal '
+                'an independently computed denotation, each wflip is followed in the loaded image (exact set bits, popcount ops, '
+                'return address, auxiliary ops off user space), and layouts the model proves impossible must be rejected.',
+        'note': 'one-sided on layout: model-impossible-but-assembled is a violation, model-possible-but-rejected is counted '
+                '(the appended wflip area may legitimately collide); pad-hole contents are unspecified',
+    },
 ]
 
 _TODO = 'check not built yet in this session (work in progress; see DESIGN.md for the planned monitor)'
